@@ -61,7 +61,8 @@ class RecEst(BaseEstimator, ClassifierMixin):
              anti  -> raw score = -X[:, col]
              const -> raw score = 0                              (cannot learn)
              memo  -> X[:, col] + big * label for rows seen in fit  (memorises its training rows)
-             proba -> predict_proba only (no decision_function)  """
+             proba -> predict_proba only (no decision_function)
+             order -> 4 * X[:, col] + w * (id mod 2), w a function of the ORDER of the training rows  """
 
     def __init__(self, kind="feat", col=1, token=0):
         self.kind, self.col, self.token = kind, col, token
@@ -70,6 +71,8 @@ class RecEst(BaseEstimator, ClassifierMixin):
         self.classes_ = np.array([0, 1])
         if self.kind == "memo":
             self.seen_ = {int(round(i)): (1.0 if lab > 0.5 else -1.0) for i, lab in zip(X[:, 0], y)}
+        if self.kind == "order":      # sensitive to the ORDER in which the training rows arrive
+            self.w_ = int(sum((j + 1) * int(round(i)) for j, i in enumerate(X[:, 0]))) % 5
         rec = _REC.get(self.token)
         if rec is not None:
             rec.emit("est_fit", [int(round(v)) for v in X[:, 0]], [int(round(v)) for v in y])
@@ -82,6 +85,8 @@ class RecEst(BaseEstimator, ClassifierMixin):
             return -X[:, self.col].astype(float)
         if self.kind == "const":
             return np.zeros(X.shape[0])
+        if self.kind == "order":
+            return 4.0 * X[:, self.col].astype(float) + getattr(self, "w_", 0) * (np.round(X[:, 0]).astype(int) % 2)
         if self.kind == "memo":
             seen = getattr(self, "seen_", {})
             return X[:, self.col].astype(float) + np.array([1000.0 * seen.get(int(round(i)), 0.0) for i in X[:, 0]])
